@@ -180,7 +180,8 @@ def bounded(tier, seed, procs):
     zoo = [("False", False), ("int8-0", np.int8(0)), ("uint8-0", np.uint8(0)), ("float-0", 0.0), ("True", True), ("int8-1", np.int8(1)), ("uint8-1", np.uint8(1)),
            ("float32-0", np.float32(0)), ("bool_-False", np.False_)]
     follow = [("z*x+100+100", lambda v, z: z * v + 100 + 100), ("x*z+100+100", lambda v, z: v * z + 100 + 100), ("x*z-1", lambda v, z: v * z - 1), ("(x*z)*300", lambda v, z: (v * z) * 300),
-              ("(x+z)*200+100", lambda v, z: (v + z) * 200 + 100), ("(x**z)*200+100", lambda v, z: (v ** z) * 200 + 100), ("x*z+x", lambda v, z: v * z + v), ("-(z*x)-1", lambda v, z: -(z * v) - 1)]
+              ("(x+z)*200+100", lambda v, z: (v + z) * 200 + 100), ("(x**z)*200+100", lambda v, z: (v ** z) * 200 + 100), ("x*z+x", lambda v, z: v * z + v), ("-(z*x)-1", lambda v, z: -(z * v) - 1),
+              ("x-z", lambda v, z: v - z), ("(x+1)-z", lambda v, z: (v + 1) - z), ("x/(-z-1)", lambda v, z: v / (-z - 1))]
     for (zn, z), (fn_, f_) in itertools.product(zoo, follow):
         if isinstance(z, (bool, np.bool_)) and "x+z" in fn_:
             continue        # bool operands of + are the known finding C03-add-bool-operand
@@ -194,7 +195,8 @@ def bounded(tier, seed, procs):
             b.case(("zoo", zn, fn_, repr(vx)), nontrivial=True, sample=dict(constant=zn, program=fn_, x=repr(vx)))
             got = outcome.run(lambda: EvaluationMapper({"x": vx})(built[1])) if built[0] == "val" else built
             if not (got[0] == "val" and outcome.same_value(got[1], want[1], typed=False)):
-                b.fail(Failure("operator-programs", f"op=number-zoo constant={zn} program={fn_} x={vx!r} tree={built[1] if built[0] == 'val' else None!r}",
+                un = "cause=unsigned-operand-negated " if isinstance(z, np.unsignedinteger) and "-z" in fn_ else ""
+                b.fail(Failure("operator-programs", f"{un}op=number-zoo constant={zn} program={fn_} x={vx!r} tree={built[1] if built[0] == 'val' else None!r}",
                                dict(kind="zoo", constant=zn, program=fn_, x=repr(vx)), expected=outcome.describe(want), actual=outcome.describe(got)[:150], functions=["Expression.__mul__", "Expression.__rmul__", "Product.__mul__"]))
     # non-commuting operands: splicing keeps operand order
     b2 = BoundedRun("non-commuting", rule="operator programs over variables a, b, c, d bound to 2x2 integer matrices (non-commuting *): products of products, "
